@@ -111,6 +111,10 @@ def _request(fl, ci, mi, ei, ti, ski, ui, ji, bi, pending, origin=0):
             hdrs['Host'] = 'h.example'
             hdrs['Origin'] = 'http://h.example' if origin == 1 else 'http://evil.example'
             hdrs['Access-Control-Request-Headers'] = 'x-custom'
+        # (ASGI gateway: the body arrives in 1-3 http.request events; for every other body of the table the server signals the
+        # end of the body with a final EMPTY event, as it does for chunked uploads)
+        sut.body_chunks = 1 + bi % 3
+        sut.body_tail_empty = bi % 2 == 1
         r = sut.request(method, q, hdrs or None, body=body, ws=ws)
         desc = '%s ?%s hdr=%r body=%r' % (method, q, up, body[:24])
         sut.run(until=_horizon(sut))
